@@ -70,6 +70,8 @@ def reference(tree, where, log):
             args = kw.pop("__args__", [])
             try:
                 f = _resolve(name)
+                if any(not isinstance(k, str) for k in kw):
+                    raise TypeError("keywords must be strings")       # Python's call protocol: such an item cannot be a keyword argument
                 key = {"factory_a": "a", "factory_fail": "fail", "nested": "nested"}[f.__name__]
                 log.append((key, tuple(args), tuple(sorted(kw.items(), key=lambda kv: kv[0]))))
                 if key == "fail":
@@ -96,7 +98,7 @@ def gen_tree(rng, depth, bad_budget):
         return rng.choice([1, 2.5, "s", True, None, "x.y", ""])
     if r < 0.55:
         return [gen_tree(rng, depth - 1, bad_budget) for _ in range(rng.randint(0, 5))]
-    keys = rng.sample(["a", "b", "c", "d", "e"], rng.randint(0, 5))
+    keys = rng.sample(["a", "b", "c", "d", "e", 80, True], rng.randint(0, 5))      # YAML mapping keys need not be strings
     d = {}
     typed = rng.random() < 0.6
     items = [(k, gen_tree(rng, depth - 1, bad_budget)) for k in keys]
